@@ -91,9 +91,6 @@ func (x *Exec) buildQueryExtra(o *Oblig, wantModel bool, extra string) string {
 	b := body.String()
 	var sb strings.Builder
 	sb.WriteString("(set-option :produce-models true)\n(set-logic ALL)\n")
-	if strings.Contains(b, "Float64") || strings.Contains(x.c.P.render(b), "Float64") {
-		sb.WriteString("(define-sort Float64 () (_ FloatingPoint 11 53))\n")
-	}
 	pre := x.c.P.render(b)
 	lv := x.unfoldLevels
 	if lv == 0 {
